@@ -80,6 +80,17 @@ check("C16", "exploration", "config-loads",
       "Trusted: the per-validator value tables; --paste on the command line needs paste.deploy (not installed) and is exercised through the other sources only; check_config/print_config are inert at load time.",
       "DESIGN.md section 3, C16")
 
+check("C17", "model_checking", "simfs",
+      "explicit-state breadth-first search over operation sequences (depth <=5, thorough 6) of three instances on two paths executing the real Pidfile class on an in-memory file system, a crash injected before every system call of every create/rename; conformance replay of the two-instance histories on a real directory with real helper processes",
+      "Reachable states (file contents x per-instance belief x live set) are enumerated completely up to the depth bound; on every transition the ownership/atomicity invariants are evaluated (create refuses iff another live process is named, exact content, crash at any syscall leaves the path absent/unchanged/complete, unlink/rename only touch files naming the caller, nothing naming another live process is destroyed, validate is exact and read-only). The arbiter's own call sites (start/halt/reload/promotion) run the real Pidfile on the same simulated FS inside the C04/C10 arbiter explorations.",
+      "Trusted: vlib/simfs.py (validated by the conformance replay: exceptions, validate results and file contents must agree with the real kernel on every replayed history); whole operations are atomic steps; process death, not power loss.",
+      "DESIGN.md section 3, C17")
+check("C03", "model_checking", "simkernel",
+      "explicit-state search over the real Arbiter.run() inside a simulated kernel (fork/kill/waitpid/select/time/signals owned by the harness): states = canonical master state at quiescence, transitions = environment events (worker exit statuses, TTIN, TTOU, HUP, tick, simultaneous pairs), plus every mid-flight event at every delivery point of each transition (deviation bound 1); pool invariants evaluated after a settling period",
+      "For 8 (thorough 19) configurations of workers/timeout/worker reaction all histories up to depth 3 (thorough 4) are explored with canonical-state deduplication, and every transition is re-run with each of 6 asynchronous events injected at every signal-delivery point (facade call entries/returns and WORKERS accesses) - about 160k complete runs of the real main loop in the quick tier. Invariants: no zombie / untracked child / dead tracked worker, active workers == reference target, num_workers == fold of TTIN/TTOU/HUP with signal coalescing, oldest-first retirement, boot-error status halts with that status, nothing but SystemExit leaves run().",
+      "Trusted: vlib/simkernel.py (process table, signal delivery at facade calls, virtual time); workers are modelled processes; delivery points are call boundaries and shared-dict accesses, not arbitrary bytecodes; two known findings (fork/SIGCHLD bookkeeping race) are listed in known_findings.json.",
+      "DESIGN.md section 3, C03; Appendix C")
+
 ALL = ["C%02d" % i for i in range(1, 21)]
 for pid in ALL:
     if pid not in CHECKS:
@@ -100,6 +111,10 @@ m = {
          "kind_free_text": "real SyncWorker/ThreadWorker/AsyncWorker.handle() in-process over real sockets, deterministic scripted client; exhaustive product enumeration"},
         {"name": "config-loads", "path": "props/c16.py", "serves_properties": ["C16"],
          "kind_free_text": "real configuration loads in child processes with controlled argv / environment / cwd / config file"},
+        {"name": "simkernel", "path": "vlib/simkernel.py", "serves_properties": ["C03", "C04", "C10", "C11", "C14"],
+         "kind_free_text": "real Arbiter.run() driven inside a deterministic simulated kernel; explicit-state search over quiescent states + mid-flight event injection at every delivery point"},
+        {"name": "simfs", "path": "vlib/simfs.py", "serves_properties": ["C17"],
+         "kind_free_text": "real Pidfile class on an in-memory file system with a syscall log and crash injection; conformance replay on a real directory"},
         {"name": "explore+gparse", "path": "vlib/gparse.py", "serves_properties": ["C01", "C06", "C07", "C12"],
          "kind_free_text": "bounded-exhaustive input/segmentation/program enumeration on the real RequestParser"},
     ],
